@@ -56,6 +56,29 @@ CLAIMED = {
              "scope end) assumed; KF-C07-stdfs-far-seek recorded (kernel limit on file offsets); extraction, driver, harness, differ.",
         technique="Coq proof (simulation with std::io::Cursor; invariant over write/flush histories) + exhaustive correspondence",
         ref="§7 C07"),
+    "C17": dict(
+        text="Coq theorems for every environment (any function name -> optional value) and every string: text without '~' and '$' is "
+             "returned unchanged; '~' and '~/rest' become $HOME and rest mashed onto $HOME; more than one '~', a '~' elsewhere, an "
+             "empty variable name and an unset variable fail with the documented kind; inside a component every well-formed "
+             "sequence of literals, $NAME and ${NAME} is replaced by exactly the values (parser-correctness theorem over token lists of "
+             "any length); the scanning loop terminates within the fuel supplied. Tied by running the real expand in one process per "
+             "environment over all short templates.",
+        note="Trusted: Coq kernel; environment as a finite map; std::path model; take_while_p/next_if_eq as list operations; "
+             "components combine with PathBuf::push (absolute value replaces the prefix) as the crate's own test pins; extraction, "
+             "driver, harness, differ.",
+        technique="Coq proof (tokeniser correctness by induction over token lists) + per-environment correspondence",
+        ref="§7 C17"),
+    "C05": dict(
+        text="Coq theorems for every string, every clean absolute cwd (any depth) and every environment: abs equals its closed form "
+             "clean(join(cwd, trim_protocol(expand s))) — hence absolute and in normal form (C14) — fails only for an empty path, a "
+             "failed expansion or '..' climbing above the root, and is idempotent from every cwd for results without '~'/'$'. The "
+             "loop peeling '.'/'..' is verified against the string-level std::path model (parent, trim_first, mash on canonical "
+             "paths). One mirror is tied to both Memfs::abs and Stdfs::abs (real process cwd in a sandbox). Partial: 'every other VFS "
+             "method resolves its arguments through abs' is structural in the Memfs mirror and exercised by the C01 respelling streams, "
+             "not a separate theorem here.",
+        note="Trusted: Coq kernel; std::path/str models; environment as a finite map; extraction, driver, harness, differ.",
+        technique="Coq proof (loop invariant over canonical component lists, denotation of cwd/q) + exhaustive correspondence on both backends",
+        ref="§7 C05"),
 }
 
 NOT_APPLICABLE = {}
